@@ -134,6 +134,63 @@ theorem observations_eq_spec (R : List Rule) (q : Req) (draw : Rule → Nat) (al
   rw [action_eq_spec]
   exact runOps_spec q _ allowLog c [] ops
 
+/-- **One action, a response code per call** — what a proxy does: the observers are `&mut self`, the
+applied-rule ids accumulate across calls made with DIFFERENT codes (request time 0, then the backend's code).
+For every sequence of (observer, code) pairs the results and the applied ids after each call are the
+specification's, with `rules_applied` = keep-the-last-occurrence of everything inserted so far by calls of any code. -/
+theorem observations_mixed_codes (R : List Rule) (q : Req) (draw : Rule → Nat) (allowLog : Bool)
+    (ops : List (Op × Nat)) :
+    runOpsC allowLog (fromRoutesRule R q draw) ops =
+      Spec.observeC q (contributing q draw (sortRules R)) allowLog [] ops := by
+  rw [action_eq_spec]
+  exact runOpsC_spec q _ allowLog [] ops
+
+/-- Closed form of `get_applied_rule_ids()` after any such sequence (e.g. the content of
+`X-RedirectionIo-RuleIds` emitted by a later `filter_headers`): the `LinkedHashSet` of the ids inserted by every
+call so far, each call with its own code. -/
+theorem applied_ids_after_mixed_codes (R : List Rule) (q : Req) (draw : Rule → Nat) (allowLog : Bool)
+    (ops : List (Op × Nat)) (hne : ops ≠ []) :
+    ((runOpsC allowLog (fromRoutesRule R q draw) ops).getLast?).map (·.2) =
+      some (dedupLast (ops.flatMap fun oc => insertedBy q (contributing q draw (sortRules R)) oc.2 oc.1)) := by
+  rw [observations_mixed_codes]
+  generalize contributing q draw (sortRules R) = C
+  have key : ∀ (ops : List (Op × Nat)) (done : List RuleId), ops ≠ [] →
+      ((Spec.observeC q C allowLog done ops).getLast?).map (·.2) =
+        some (dedupLast (done ++ ops.flatMap fun oc => insertedBy q C oc.2 oc.1)) := by
+    intro ops
+    induction ops with
+    | nil => intro _ h; exact absurd rfl h
+    | cons oc rest ih =>
+      intro done _
+      obtain ⟨op, c⟩ := oc
+      cases rest with
+      | nil => simp [Spec.observeC]
+      | cons oc2 rest2 =>
+        have := ih (done ++ insertedBy q C c op) (by simp)
+        simp only [Spec.observeC, List.flatMap_cons, List.append_assoc] at this ⊢
+        rw [List.getLast?_cons_cons]
+        exact this
+  simpa using key ops [] hne
+
+/-- **The proxy order on ONE action**: `get_status_code(0)`; if that is 0, `get_status_code(backend)`; then
+`filter_headers`, `create_filter_body` with the code the client will see and `should_log_request` with the final
+status — every returned value and the applied ids after each call are the specification's, the codes of the later
+calls being computed from the results of the earlier ones. -/
+theorem proxy_order_observations (R : List Rule) (q : Req) (draw : Rule → Nat) (allowLog : Bool) (backend : Nat) :
+    let a := fromRoutesRule R q draw
+    let C := contributing q draw (sortRules R)
+    runOpsC allowLog a
+        (proxySequence (a.getStatusCode 0).1 ((a.getStatusCode 0).2.getStatusCode backend).1 backend) =
+      Spec.observeC q C allowLog []
+        (proxySequence (statusAt C 0).1 (statusAt C backend).1 backend) := by
+  intro a C
+  have e : a = withApplied (Spec.action q C) [] := action_eq_spec R q draw
+  have h0 : (a.getStatusCode 0).1 = (statusAt C 0).1 := by rw [e, getStatusCode_spec]
+  have h1 : ((a.getStatusCode 0).2.getStatusCode backend).1 = (statusAt C backend).1 := by
+    rw [e, getStatusCode_spec, getStatusCode_spec]
+  rw [h0, h1]
+  exact observations_mixed_codes R q draw allowLog _
+
 /-- `status_closed_form`: `get_status_code(c)` on the computed action is `statusAt C c`, and the rule
 id it inserts into `rules_applied` is the rule that value is attributed to. -/
 theorem status_closed_form (R : List Rule) (q : Req) (draw : Rule → Nat) (c : Nat) :
@@ -302,6 +359,84 @@ theorem attribution_status (R : List Rule) (q : Req) (draw : Rule → Nat) (c : 
           simp only [Option.some.injEq] at h ⊢
           have hf := hm.2 f rfl
           exact ⟨f, hmem f hf.1, hf.1, h, hf.2.1, rfl, .inr ⟨by simpa using hz, hf.2.2.1⟩⟩
+
+/-- The log decision is attributed like the status: when `should_log_request` names a rule, it is a matched,
+contributing rule carrying a log override whose condition admits `c` — or the UNCONDITIONAL rule just below a
+conditional primary rule that does not admit `c` (the fallback). -/
+theorem attribution_log (R : List Rule) (q : Req) (draw : Rule → Nat) (c : Nat) (id : RuleId)
+    (h : (logAt (contributing q draw (sortRules R)) c).2 = some id) :
+    ∃ r, r ∈ R ∧ r ∈ contributing q draw (sortRules R) ∧ r.id = id ∧ carriesLog r = true ∧
+      (logAt (contributing q draw (sortRules R)) c).1 = r.logOverride ∧
+      (admits r c = true ∨
+        (unconditional r = true ∧ ∃ p ∈ contributing q draw (sortRules R), carriesLog p = true ∧
+          unconditional p = false ∧ admits p c = false)) := by
+  generalize hC : contributing q draw (sortRules R) = C at h
+  have hmem : ∀ r, r ∈ C → r ∈ R := fun r hr => (contributing_mem R q draw r (hC ▸ hr)).1
+  unfold logAt at h ⊢
+  cases hpf : primaryFallback carriesLog C with
+  | none => simp [hpf] at h
+  | some pf =>
+    obtain ⟨p, fb⟩ := pf
+    have hm := primaryFallback_mem carriesLog C p fb hpf
+    simp only [hpf] at h ⊢
+    by_cases ha : admits p c = true
+    · simp only [ha, if_true, Option.some.injEq] at h ⊢
+      exact ⟨p, hmem p hm.1.1, hm.1.1, h, hm.1.2, rfl, .inl ha⟩
+    · simp only [ha, Bool.false_eq_true, if_false] at h ⊢
+      cases fb with
+      | none => simp at h
+      | some f =>
+        simp only [Option.some.injEq] at h ⊢
+        have hf := hm.2 f rfl
+        exact ⟨f, hmem f hf.1, hf.1, h, hf.2.1, rfl,
+          .inr ⟨hf.2.2.1, p, hm.1.1, hm.1.2, hf.2.2.2, by simpa using ha⟩⟩
+
+/-- `attribution_status` with the fallback clause spelled out: the fallback rule is named only for a real
+response code, when it is unconditional and the primary (a contributing, status-carrying, CONDITIONAL rule) does
+not admit the code. -/
+theorem attribution_status_fallback (R : List Rule) (q : Req) (draw : Rule → Nat) (c : Nat) (id : RuleId)
+    (h : (statusAt (contributing q draw (sortRules R)) c).2 = some id) :
+    ∃ r, r ∈ R ∧ r ∈ contributing q draw (sortRules R) ∧ r.id = id ∧ carriesStatus r = true ∧
+      (admitsStatus r c = true ∨
+        (c ≠ 0 ∧ unconditional r = true ∧ ∃ p ∈ contributing q draw (sortRules R), carriesStatus p = true ∧
+          unconditional p = false ∧ admitsStatus p c = false)) := by
+  generalize hC : contributing q draw (sortRules R) = C at h
+  have hmem : ∀ r, r ∈ C → r ∈ R := fun r hr => (contributing_mem R q draw r (hC ▸ hr)).1
+  unfold statusAt at h
+  cases hpf : primaryFallback carriesStatus C with
+  | none => simp [hpf] at h
+  | some pf =>
+    obtain ⟨p, fb⟩ := pf
+    have hm := primaryFallback_mem carriesStatus C p fb hpf
+    simp only [hpf] at h
+    by_cases ha : admitsStatus p c = true
+    · simp only [ha, if_true, Option.some.injEq] at h
+      exact ⟨p, hmem p hm.1.1, hm.1.1, h, hm.1.2, .inl ha⟩
+    · simp only [ha, Bool.false_eq_true, if_false] at h
+      by_cases hz : (c == 0) = true
+      · simp [hz] at h
+      · simp only [hz, Bool.false_eq_true, if_false] at h
+        cases fb with
+        | none => simp at h
+        | some f =>
+          simp only [Option.some.injEq] at h
+          have hf := hm.2 f rfl
+          exact ⟨f, hmem f hf.1, hf.1, h, hf.2.1,
+            .inr ⟨by simpa using hz, hf.2.2.1, p, hm.1.1, hm.1.2, hf.2.2.2, by simpa using ha⟩⟩
+
+/-- An id inserted by `filter_headers` / `create_filter_body` for code `c` is the id of a contributing rule whose
+response-status condition ADMITS `c` (the clause `applied_ids_attributed` leaves out; for ids inserted by
+`get_status_code` / `should_log_request` see `attribution_status_fallback` / `attribution_log`). -/
+theorem filter_ids_admitted (q : Req) (C : List Rule) (c : Nat) (op : Op) (hop : op = .headers ∨ op = .body)
+    (id : RuleId) (h : id ∈ insertedBy q C c op) : ∃ r ∈ C, r.id = id ∧ admits r c = true := by
+  rcases hop with rfl | rfl
+  · simp only [insertedBy, List.mem_append, List.mem_map, List.mem_flatMap, List.mem_filter] at h
+    rcases h with ⟨r, ⟨hr, ha⟩, rfl⟩ | ⟨r, ⟨hr, ha⟩, _, _, rfl⟩
+    · exact ⟨r, hr, rfl, ha⟩
+    · exact ⟨r, hr, rfl, ha⟩
+  · simp only [insertedBy, List.mem_map, List.mem_flatMap, List.mem_filter] at h
+    obtain ⟨r, ⟨hr, ha⟩, _, _, rfl⟩ := h
+    exact ⟨r, hr, rfl, ha⟩
 
 /-- Every id reported by `get_applied_rule_ids` after any sequence of observers is the id of a
 matched, contributing rule. -/
